@@ -170,7 +170,20 @@ func compileScript(
 	script []byte,
 	opts *CompilerOptions,
 	modStore *moduleStore,
-) (*Bytecode, error) {
+) (bc *Bytecode, err error) {
+
+	// an operand that does not fit its field (too many locals, call arguments,
+	// literal elements, constants, or a jump that is too far) is reported by
+	// emit/changeOperand with an operandError panic; return it as an error.
+	defer func() {
+		if r := recover(); r != nil {
+			oe, ok := r.(*operandError)
+			if !ok {
+				panic(r)
+			}
+			bc, err = nil, oe.err
+		}
+	}()
 
 	fileSet := parser.NewFileSet()
 	moduleName := opts.ModulePath
@@ -202,11 +215,17 @@ func compileScript(
 		return nil, err
 	}
 
-	bc := compiler.Bytecode()
+	bc = compiler.Bytecode()
 	if bc.Main.NumLocals > maxNumLocals {
 		return nil, ErrSymbolLimit
 	}
 	return bc, nil
+}
+
+// operandError is the panic value of emit and changeOperand when an instruction
+// operand is out of range; compileScript converts it to an ordinary error.
+type operandError struct {
+	err error
 }
 
 // SetGlobalSymbolsIndex sets index of a global symbol. This is only required
@@ -459,7 +478,7 @@ func (c *Compiler) changeOperand(opPos int, operand ...int) {
 	inst := make([]byte, 0, 8)
 	inst, err := MakeInstruction(inst, op, operand...)
 	if err != nil {
-		panic(err)
+		panic(&operandError{err: err})
 	}
 	c.replaceInstruction(opPos, inst)
 }
@@ -551,7 +570,10 @@ func (c *Compiler) emit(node parser.Node, opcode Opcode, operands ...int) int {
 	inst := make([]byte, 0, 8)
 	inst, err := MakeInstruction(inst, opcode, operands...)
 	if err != nil {
-		panic(err)
+		if node != nil {
+			err = c.error(node, err)
+		}
+		panic(&operandError{err: err})
 	}
 
 	pos := c.addInstruction(inst)
